@@ -172,6 +172,22 @@ def plane_points(nazi):
                 x, y = vx + o * math.cos(a * math.pi / 4 + 0.1), vy + o * math.sin(a * math.pi / 4 + 0.1)
                 if fp.in_domain(x, y):
                     pts.append(('vertex', x, y))
+    # exactly at, and 1e-13..1e-16 from, every vertex of the projection's triangles (pentagon vertices, edge midpoints, mirror apexes):
+    # the inverse snaps to the triangle vertex there
+    tiny = [0.0, 1e-16, 1e-15, 1e-14, 1e-13]
+    for k in range(5):
+        a = fp.A36 + k * fp.A72
+        specials = [(fp.R_VERTEX * math.cos(a), fp.R_VERTEX * math.sin(a)), fp.from_local(fp.D_EDGE, 0.0, k), fp.from_local(2 * fp.D_EDGE, 0.0, k)]
+        for sx, sy in specials:
+            for o in tiny:
+                for (dx, dy) in ((-1, 0), (0, 1), (0, -1), (-0.7, 0.7), (-0.7, -0.7), (1, 0)):
+                    # displacement towards the centre / along the edge keeps the point inside the domain
+                    n = math.hypot(sx, sy)
+                    ux, uy = sx / n, sy / n
+                    x = sx + o * (dx * ux - dy * uy)
+                    y = sy + o * (dx * uy + dy * ux)
+                    if fp.in_domain(x, y, -1e-12):
+                        pts.append(('triangle_vertex', x, y))
     # near the centre
     for o in [10.0 ** -k for k in range(15, 2, -1)]:
         for a in range(6):
